@@ -246,6 +246,51 @@ pub fn c14_case(case: &Value, acc: &mut CompAcc) {
         _ => {
             let probes = case["probes"].as_u64().unwrap();
             // three add-sets: well mixed, sequential, high-bits-only; probes are always well mixed and disjoint
+            // structured neighbours: add hashes whose low half is zero (well-mixed high half), probe
+            // the never-added hashes that differ from an added one only in a few low bits (+1, +2, +3)
+            // (the mirror image, hashes with a zero high half probed at a flipped top bit, is not
+            // checked: such hashes all share the base position by construction of this filter and
+            // their strides overlap, so the unchanged filter reports 13 % of those probes present
+            // at capacity 100 / rate 0.01; no Bloom filter bounds the rate for adversarial sets)
+            for (addfam, deltas) in [("high-only", [1u64, 2, 3])] {
+                let mut b = VBloom::new(cap as usize, rate);
+                let mut set = HashSet::new();
+                for i in 0..cap {
+                    let mut sd = i.wrapping_mul(2).wrapping_add(12345);
+                    let x = splitmix(&mut sd);
+                    let h = if addfam == "high-only" { x & !0xffff_ffffu64 } else { x & 0xffff_ffff };
+                    b.add(h);
+                    set.insert(h);
+                    acc.ops += 1;
+                }
+                let (mut fp, mut m) = (0u64, 0u64);
+                for &h in &set {
+                    for d in deltas {
+                        let p = if addfam == "high-only" { h.wrapping_add(d) } else { h ^ d };
+                        if set.contains(&p) {
+                            continue;
+                        }
+                        m += 1;
+                        acc.ops += 1;
+                        if b.contains(p) {
+                            fp += 1;
+                        }
+                    }
+                }
+                let frac = fp as f64 / (m as f64).max(1.0);
+                let allowed = 3.0 * rate + 0.005 + 2.0 / (m as f64).max(1.0);
+                acc.state(&(cap, rate.to_bits(), addfam, fp), fp > 0);
+                if frac > allowed {
+                    acc.fail(
+                        "bloom-false-positive-neighbours",
+                        format!(
+                            "capacity {} target rate {}: after adding {} distinct {} hashes, {} of the {} never-added hashes differing from an added one only in a few {} bits are reported present ({:.4} > allowed {:.4})",
+                            cap, rate, set.len(), addfam, fp, m, if addfam == "high-only" { "low" } else { "top" }, frac, allowed
+                        ),
+                    );
+                    return;
+                }
+            }
             for addfam in ["mixed", "seq", "shl48"] {
                 let mut b = VBloom::new(cap as usize, rate);
                 let mut set = HashSet::new();
@@ -305,6 +350,7 @@ pub fn c13_cases(tier: &str) -> Vec<Value> {
         v.push(json!({"kind": "sketch-seq", "num_counters": w, "len": len}));
         v.push(json!({"kind": "sketch-long", "num_counters": w}));
         v.push(json!({"kind": "tiny", "num_counters": w, "len": if w <= 16 { len.min(6) } else { 4 }}));
+        v.push(json!({"kind": "tiny-batch", "num_counters": w, "len": if tier == "quick" { 4 } else { 5 }}));
     }
     v
 }
@@ -608,8 +654,77 @@ fn c13_tiny(case: &Value, acc: &mut CompAcc) {
     }
 }
 
+/// Batched recording (`increments`, the path the policy worker uses for every flushed lookup batch)
+/// is the same as recording the hashes one by one: the aging reset happens exactly after every
+/// num_counters-th access, also when that access lies in the middle of a batch.
+fn c13_tiny_batch(case: &Value, acc: &mut CompAcc) {
+    let nc = case["num_counters"].as_u64().unwrap() as usize;
+    let len = case["len"].as_u64().unwrap() as u32;
+    let probe = match VTinyLfu::new(nc) {
+        Ok(t) => t,
+        Err(e) => {
+            acc.fail("tiny-new", format!("TinyLFU::new({}) failed: {}", nc, e));
+            return;
+        }
+    };
+    let sn = probe.snap();
+    let keys = sketch_keys(sn.mask, sn.seeds);
+    let mut sizes: Vec<usize> = vec![2, 3, 5, 7, nc.saturating_sub(1), nc, nc + 1, 2 * nc + 1, 48, 64];
+    sizes.retain(|b| *b >= 1);
+    sizes.sort();
+    sizes.dedup();
+    let total = 4u64.pow(len);
+    for code in 0..total {
+        let mut seq = Vec::new();
+        let mut c = code;
+        for _ in 0..len {
+            seq.push((c % 4) as usize);
+            c /= 4;
+        }
+        let target = 2 * nc + len as usize + 1;
+        let long: Vec<u64> = seq.iter().cycle().take(target.max(len as usize)).map(|i| keys[*i]).collect();
+        for &b in &sizes {
+            acc.cases += 1;
+            let mut one = VTinyLfu::new(nc).unwrap();
+            let mut bat = VTinyLfu::new(nc).unwrap();
+            if one.snap().seeds != bat.snap().seeds {
+                acc.fail("tiny-seeds-differ", "two estimators of the same width got different seeds: the comparison needs the deterministic clock".into());
+                return;
+            }
+            let mut resets = 0;
+            for chunk in long.chunks(b) {
+                for h in chunk {
+                    one.increment(*h);
+                    if one.snap().w == 0 {
+                        resets += 1;
+                    }
+                }
+                bat.increments(chunk.to_vec());
+                acc.ops += chunk.len() as u64;
+                let (so, sb) = (one.snap(), bat.snap());
+                let same_dk = keys.iter().all(|k| one.doorkeeper_contains(*k) == bat.doorkeeper_contains(*k));
+                if so.w != sb.w || so.counters != sb.counters || !same_dk {
+                    let eo: Vec<i64> = keys.iter().map(|k| one.estimate(*k)).collect();
+                    let eb: Vec<i64> = keys.iter().map(|k| bat.estimate(*k)).collect();
+                    acc.fail(
+                        "tiny-batch-differs",
+                        format!(
+                            "num_counters {}: recording {:?}... in batches of {} leaves window {} / estimates {:?}, one by one window {} / estimates {:?}: the aging reset is not applied after exactly every num_counters-th access",
+                            nc, seq, b, sb.w, eb, so.w, eo
+                        ),
+                    );
+                    return;
+                }
+            }
+            let so = one.snap();
+            acc.state(&(nc, b, so.w, so.counters), resets > 0);
+        }
+    }
+}
+
 pub fn c13_case(case: &Value, acc: &mut CompAcc) {
     match case["kind"].as_str().unwrap() {
+        "tiny-batch" => c13_tiny_batch(case, acc),
         "row" => c13_row(case, acc),
         "sketch-seq" => c13_sketch_seq(case, acc),
         "sketch-long" => c13_sketch_long(case, acc),
